@@ -26,7 +26,10 @@ THEOREMS = [P + t for t in (
     'vactoair_strict_mono_below', 'units_order_preserving', 'toairImg_eq', 'toair_only_wavelengths', 'bandFlux_ok',
     'weights_nonneg', 'weights_zero_outside', 'bandflux_no_overlap', 'bandflux_between_min_max',
     'bandflux_between_min_max_masked', 'bandflux_const', 'filter_reverse_invariant', 'bandflux_reverse_invariant',
-    'maskInterp_reverse_invariant', 'bandflux_reverse_invariant_masked')]
+    'maskInterp_reverse_invariant', 'bandflux_reverse_invariant_masked',
+    # extension round 2: filter_thru end to end (trace-set fit inside the model)
+    'e2e_is_bandFlux', 'e2e_fit_error', 'loglinear_diffy', 'bandflux_loglinear_closed', 'fit_loglinear',
+    'e2e_loglinear_closed', 'pairwise_same_value', 'top_dispatch')]
 TECHNIQUE = 'Lean 4 proof over an executable model + constant translator + I/O correspondence'
 RULE = ('wave: wavelengths log-uniform in 100 A .. 30 um plus the 2000 A boundary, as Python float, numpy scalar, 0-d / 1-d / 2-d '
         'array (mixed below/above 2000 A) and scalar / array Quantity in A, nm, um, both directions; ab: 1-6 rows x 5 bands in the '
@@ -36,14 +39,25 @@ RULE = ('wave: wavelengths log-uniform in 100 A .. 30 um plus the 2000 A boundar
         'an independent recomputation (all pixels, zero pattern exact) and with the real function probed by unit spectra at the band '
         'edges, both ends and random pixels; resp: np.interp as filter_thru calls it on the five curves and on synthetic curves '
         '(nodes, ends, beyond the ends), bit-exact. '
+        'filter end to end (fthru-e2e, ffit): the same cases with NOTHING from the real TraceSet - the model fits d log10(lambda) itself '
+        '(C13 model, Gaussian elimination), its fitted image is compared with the real TraceSet\'s (1e-9 relative to max) and its band '
+        'fluxes with the real filter_thru (1e-9 max|flux|); counted by log-linear/curved, toair, descending, nx, ntrace. fthru-pw: the '
+        'model with numpy\'s pairwise sums against the real band fluxes (<= 2 ulps; bit-exact on every case so far). e2e-rat: exact run of '
+        'the end-to-end model at Rat (log10 := id, affine rows, nx 5-100, curve with zero or positive ends, both directions) against '
+        'fit_loglinear and e2e_loglinear_closed. Oracle filter:loglinear-closed-form: real band flux of a log-linear solution = '
+        'sum(resp f)/sum(resp). fthru-top: the whole call in the model - image or trace set (evaluated by the model, 10**), neither, '
+        'other filter_prefix - against the real function (1e-9 max|flux|, same refusals). '
         'wave-rat: the same model text run exactly at Rat against the proved 109/a^3 bound and against the float code (1e-13). '
         'A case is non-trivial when it reaches the conversion arithmetic (not only the guard), a band correction, or a band that '
         'overlaps the wavelengths; distinct = distinct case payloads')
 TRUSTED = ['hand-written model lean/PydlVerif/Model/Wave.lean tied to the code by the I/O correspondence of this run',
            'constant translator harness/xlate/c19_consts.py (Python ast; literals re-parsed with decimal and compared with float())',
            'astropy.units scale factors (inputs of the model), numpy elementwise float64 arithmetic, libm pow/log10, numpy sum / interp',
-           'the trace-set fit inside filter_thru (xy2traceset / traceset2xy of the pixel differences of log10 lambda) is an input of the '
-           'model: the harness repeats lines 435-439 of filter_thru with the real TraceSet; the model computes everything after it',
+           'hand-written model lean/PydlVerif/Model/WaveFit.lean (filter_thru end to end: the trace-set fit of d log10 lambda through the '
+           'C13 model Model/Trace.lean) tied to the code by the fthru-e2e / ffit streams; numpy.linalg.solve is a parameter with the '
+           'contract "solves the system" (C13 SolveContract), run as Gaussian elimination with partial pivoting by the driver; the older '
+           'streams (fweights, fthru, fthru-pw) still take the fitted image from the real TraceSet (lines 435-439 repeated by the harness)',
+           'numpy pairwise summation as modelled for C14 (Model/Idl.lean npSum), used by the fthru-pw stream',
            'independent recomputation of the weight image in the harness (numpy Legendre least squares, np.interp, log10) as oracle']
 ASSUMPTIONS = ['wavelengths and fluxes are finite float64 (float32 / integer arrays are outside the statement)',
                'theorems are over an exact ordered field; rounding is covered by the bit-exact / toleranced correspondence only',
@@ -58,6 +72,7 @@ ASSUMPTIONS = ['wavelengths and fluxes are finite float64 (float32 / integer arr
 
 LO, HI = 100.0, 3.0e5          # quantifier: 100 A .. 30 um
 GUARD = 2000.0
+PW_TOL = 1e-15                # fthru-pw: model with numpy's pairwise sums against the real band fluxes: <= 2 ulps, or this x max|flux|
 UNITS = {'AA': 1.0, 'nm': 10.0, 'um': 1.0e4}
 KINDS = ('float', 'npfloat', 'arr0d', 'arr1d', 'arr2d', 'qscalar', 'qarr', 'iarr', 'pyint')
 DOC_OFFSETS = [-0.042, 0.036, 0.015, 0.013, -0.002]   # sdss-calib/845, quoted in the docstring
@@ -860,7 +875,24 @@ def _filter_run(ctx, cases, use_model=True):
             common = {'p': 'C19', 'wave': rows(waveimg), 'lds': rows(ld), 'toair': bool(g['toair']), 'curves': _curves_json()}
             lines.append(dict(common, op='fweights'))
             lines.append(dict(common, op='fthru', flux=rows(flux), mask=None if mask is None else [[int(v) for v in r] for r in mask]))
+            # end-to-end model (extension round 2): nothing from the real TraceSet - the model fits d log10(lambda) itself
+            lines.append({'p': 'C19', 'op': 'fthru_e2e', 'wave': rows(waveimg), 'flux': rows(flux), 'toair': bool(g['toair']),
+                          'curves': _curves_json(), 'mask': None if mask is None else [[int(v) for v in r] for r in mask]})
+            # the whole call incl. the argument handling: a trace set is evaluated by the model (C13 TSet.xy) and raised to 10**;
+            # neither waveimg nor wset / another filter_prefix are refused
+            top = {'p': 'C19', 'op': 'fthru_top', 'flux': rows(flux), 'toair': bool(g['toair']), 'curves': _curves_json(),
+                   'mask': None if mask is None else [[int(v) for v in r] for r in mask], 'prefix_ok': True, 'wave': None, 'wset': None}
+            if g['wave_as'] == 'wset':
+                ws = kw['wset']
+                lines.append(dict(top, wset={'func': str(ws.func), 'xmin': core.f2b(float(ws.xmin)), 'xmax': core.f2b(float(ws.xmax)),
+                                             'coeff': rows(np.asarray(ws.coeff, dtype=np.float64))}))
+            else:
+                lines.append(dict(top, wave=rows(waveimg)))
+            lines.append(top)
+            lines.append(dict(top, wave=rows(waveimg), prefix_ok=False))
             model = core.driver(lines)
+            _e2e_check(ctx, c, model[nT + 2], ld, res, scale)
+            _top_check(ctx, c, model[nT + 3:nT + 6], flux, waveimg, res, scale)
             for t, m in enumerate(model[:nT]):
                 if isinstance(m, dict):
                     ctx.disagree('filter', c, 'ok', m)
@@ -886,6 +918,19 @@ def _filter_run(ctx, cases, use_model=True):
                 ref = float((W[t, b] * fi).sum() / wsum[t, b])
                 if abs(v - ref) > 1e-9 * scale:
                     ctx.violate('filter:not-weighted-mean', 'band %s of trace %d: %r, response-weighted mean %r' % (BANDS[b], t, v, ref), c)
+        # log-linear solution (loglam = c0 + c1 i): the fitted pixel size is the constant c1, which cancels - the band flux is
+        # sum(resp(lambda_i) f_i) / sum(resp(lambda_i)) whatever the pixel size (theorem bandflux_loglinear_closed)
+        if all(cv == 0.0 for cv in g['curv']) and not g['toair']:
+            ctx.count('filter:loglinear-closed-form')
+            for t in range(nT):
+                fi = flux[t] if mask is None else _interp_rows(flux[t], mask[t])
+                for b, (lam, resp, _) in enumerate(_filter_curves()):
+                    rr_ = np.interp(weff[t], lam, resp)
+                    if overlap[t, b] and rr_.sum() > 0:
+                        ref = float((rr_ * fi).sum() / rr_.sum())
+                        if abs(res[t, b] - ref) > 1e-9 * scale:
+                            ctx.violate('filter:loglinear-closed-form', 'band %s of trace %d: %r, sum(resp f)/sum(resp) = %r' % (
+                                BANDS[b], t, float(res[t, b]), ref), c)
         # constant spectrum -> the constant
         cvals = np.array(g['const'])
         rc = _ft(np.zeros((nT, nx)) + cvals[:, None], mask=mask, toair=g['toair'], **kw)
@@ -927,6 +972,53 @@ def _filter_run(ctx, cases, use_model=True):
             if isinstance(rr, dict) or (np.abs(rr - res) > 1e-9 * scale).any():
                 ctx.violate('filter:pixel-order', 'reversing the pixel order of flux, wavelengths and mask changed the band fluxes: %s vs %s' % (
                     rr if isinstance(rr, dict) else rr.tolist(), res.tolist()), c)
+
+
+def _top_check(ctx, c, ms, flux, waveimg, res, scale):
+    """model of the whole call (argument handling, wset evaluated by the model) against the real function"""
+    from pydl.pydlspec2d.spec2d import filter_thru
+    g = c['gen']
+    ctx.count('filter:top:' + g['wave_as'])
+    m = ms[0]
+    if not (isinstance(m, dict) and 'ok' in m):
+        ctx.disagree('fthru-top', c, 'ok', m)
+        return
+    mres = np.array([[core.b2f(v) for v in r] for r in m['ok']])
+    if mres.shape != res.shape or not (np.abs(mres - res) <= 1e-9 * scale).all():
+        ctx.disagree('fthru-top', c, res.tolist(), mres.tolist())
+        return
+    for tag, call, mm in (('neither', lambda: filter_thru(flux), ms[1]),
+                          ('prefix', lambda: filter_thru(flux, waveimg=waveimg, filter_prefix='sdss_other'), ms[2])):
+        try:
+            call()
+            impl = 'ok'
+        except Exception as e:
+            impl = core.exc_kind(e)
+        ctx.count('filter:top:refused-%s:%s' % (tag, impl))
+        if not (isinstance(mm, dict) and mm.get('err') == impl):
+            ctx.disagree('fthru-top', dict(c, refused=tag), impl, mm)
+
+
+def _e2e_check(ctx, c, me, ld, res, scale):
+    """end-to-end model (trace-set fit inside the model, C13 model + Gaussian elimination) against the real code: the fitted
+    image `logdiff` (before np.absolute) against the real TraceSet's, the band fluxes against the real filter_thru"""
+    g = c['gen']
+    kind = ('loglinear' if all(cv == 0.0 for cv in g['curv']) else 'curved') + (':toair' if g['toair'] else '') + \
+           (':descending' if g.get('descending') else '')
+    ctx.count('filter:e2e:' + kind)
+    ctx.count('filter:e2e:nx%d:ntrace%d' % (g['nx'], g['ntrace']))
+    if not (isinstance(me, dict) and 'ok' in me and 'lds' in me):
+        ctx.disagree('fthru-e2e', c, 'ok', me)
+        return
+    mld = np.array([[core.b2f(v) for v in r] for r in me['lds']])
+    top = max(float(np.abs(ld).max()), 1e-300)
+    if mld.shape != ld.shape or not (np.abs(mld - ld) <= 1e-9 * top).all():
+        ctx.disagree('ffit', c, 'logdiff of the real TraceSet: max |.| %r' % top,
+                     'model fit differs by %r' % (float(np.abs(mld - ld).max()) if mld.shape == ld.shape else mld.shape,))
+        return
+    mres = np.array([[core.b2f(v) for v in r] for r in me['ok']])
+    if mres.shape != res.shape or not (np.abs(mres - res) <= 1e-9 * scale).all():
+        ctx.disagree('fthru-e2e', c, res.tolist(), mres.tolist())
 
 
 def _weights_check(ctx, c, mw, mt, waveimg, weff, dy, W, res, scale):
@@ -990,6 +1082,17 @@ def _weights_check(ctx, c, mw, mt, waveimg, weff, dy, W, res, scale):
     mres = np.array([[core.b2f(v) for v in r] for r in mt['ok']])
     if mres.shape != res.shape or (np.abs(mres - res) > 1e-9 * scale).any():
         ctx.disagree('fthru', c, res.tolist(), mres.tolist())
+        return
+    # the same with numpy's pairwise sums in the model (C14's npSum): every other step is elementwise IEEE arithmetic on
+    # bit-identical inputs (np.interp, |logdiff|, the products, the quotient), so the band fluxes agree to the last bits
+    mpw = np.array([[core.b2f(v) for v in r] for r in mt.get('okpw', [])])
+    if mpw.shape != res.shape:
+        ctx.disagree('fthru-pw', c, res.tolist(), mt.get('okpw'))
+        return
+    ul = max(_ulps(float(a), float(b)) for a, b in zip(mpw.ravel(), res.ravel()))
+    ctx.count('filter:pairwise-sum:' + ('bit-exact' if ul == 0 else 'ulps<=%d' % (2 if ul <= 2 else 16 if ul <= 16 else 10 ** 9)))
+    if ul > 2 and not (np.abs(mpw - res) <= PW_TOL * scale).all():
+        ctx.disagree('fthru-pw', c, res.tolist(), mpw.tolist())
 
 
 def _interp_rows(f, m):
@@ -1027,6 +1130,51 @@ def _gen_obligation(ctx):
     ctx.count('gen:constants-extracted', len(consts['ciddor_air']) + len(consts['ciddor_vac']) + len(consts['ab']) + len(consts['abscalars']) + 1)
 
 
+def _e2e_rat_run(ctx):
+    """exact run of the end-to-end model at Rat (log10 := id, exactly affine rows, exact Gaussian elimination): the fitted image
+    is exactly the pixel size c1 in every pixel and the band flux exactly sum(resp f)/sum(resp) - the executed model meets
+    fit_loglinear / e2e_loglinear_closed (which also shows their hypotheses are met by a run that returns)"""
+    rng = ctx.rng
+    lines, cases = [], []
+    for _ in range(ctx.n(10, 120)):
+        nT = rng.randrange(1, 3)
+        nx = rng.choice([5, 6, 7, 9, 12, 20, 33] if ctx.tier != 'thorough' else [5, 6, 7, 8, 9, 12, 20, 33, 64, 100])
+        c1 = [rng.choice([-1, 1]) * rng.randrange(1, 17) / 16.0 for _ in range(nT)]
+        c0 = [rng.randrange(0, 81) / 8.0 for _ in range(nT)]
+        wave = [[c0[t] + c1[t] * i for i in range(nx)] for t in range(nT)]      # exact in binary64
+        lo = max(min(r) for r in wave)
+        hi = min(max(r) for r in wave)
+        if hi - lo < 1.0:          # traces do not share a stretch: a curve around the first trace
+            lo, hi = min(wave[0]), max(wave[0])
+        a = lo + (hi - lo) / 8.0
+        b = hi - (hi - lo) / 8.0
+        k = rng.randrange(1, 4)
+        xp = [a] + sorted(a + (b - a) * rng.randrange(1, 32) / 32.0 for _ in range(k)) + [b]
+        xp = sorted(set(math.floor(v * 1024) / 1024.0 for v in xp))
+        ends = rng.choice(['zero', 'positive'])
+        fp = [rng.randrange(1, 65) / 64.0 for _ in xp]
+        if ends == 'zero' and len(xp) >= 3:
+            fp[0] = fp[-1] = 0.0
+        flux = [[rng.randrange(-40, 160) / 4.0 for _ in range(nx)] for _ in range(nT)]
+        c = {'stream': 'e2e-rat', 'wave': [_bits(np.array(r)) for r in wave], 'flux': [_bits(np.array(r)) for r in flux],
+             'xp': _bits(np.array(xp)), 'fp': _bits(np.array(fp)), 'c1': _bits(np.array(c1))}
+        cases.append((c, nx, nT, ends))
+        lines.append(dict(c, p='C19', op='e2e_rat'))
+    model = core.driver_parallel(lines, chunk=8)
+    for (c, nx, nT, ends), m in zip(cases, model):
+        ctx.seen(c)
+        ctx.count('e2e-rat:nx%d' % nx)
+        ctx.count('e2e-rat:ends-' + ends + (':descending' if core.b2f(c['c1'][0]) < 0 else ':ascending'))
+        if 'driver_error' in m or 'err' in m or not m.get('fit_ok'):
+            ctx.disagree('e2e-rat', c, 'theorem fit_loglinear: fitted image = c1 exactly', m)
+            continue
+        if not m['overlap']:
+            ctx.count('e2e-rat:no-overlap')
+            continue
+        if not m['res_ok']:
+            ctx.disagree('e2e-rat', c, 'theorem e2e_loglinear_closed: band flux = sum(resp f)/sum(resp) exactly', m)
+
+
 def run(ctx):
     _gen_obligation(ctx)
     core.audit(ctx, LEAN_MODULES, THEOREMS)
@@ -1038,6 +1186,7 @@ def run(ctx):
     _interp_run(ctx, _interp_cases(ctx))
     _resp_run(ctx, _resp_cases(ctx))
     _filter_run(ctx, _filter_cases(ctx))
+    _e2e_rat_run(ctx)
     if any(not o['ok'] for o in ctx.obligations) or ctx.disagreements:
         _search(ctx)
 
@@ -1087,7 +1236,7 @@ def replay(ctx, case):
     elif s == 'resp':
         _resp_run(ctx, [case])
     elif s == 'filter':
-        _filter_run(ctx, [{k: v for k, v in case.items() if k not in ('trace', 'band', 'pixel')}])
+        _filter_run(ctx, [{k: v for k, v in case.items() if k not in ('trace', 'band', 'pixel', 'refused')}])
     elif s == 'curve':
         _check_curves(ctx)
     else:
@@ -1104,16 +1253,27 @@ LEVEL_TEXT = ('Machine-checked Lean 4 theorems (any ordered field) over an execu
               'normalised sum. Proved for these weights: they are >= 0 for a non-negative curve, 0 outside the curve when it starts and ends '
               'at zero, hence band flux linear, = c for constant c, between min and max of the (unmasked) flux, exactly 0 without overlap, '
               'independent of masked pixels and of the pixel order (also with a mask: the mask interpolation commutes with reversal); toair only changes the wavelengths at which the response is read. '
+              'Extension 2: filter_thru END TO END - the cubic Legendre trace-set fit of the pixel differences of log10 lambda is inside the '
+              'model (C13 model of xy2traceset/traceset2xy); proved: the end-to-end function is bandFlux on the fitted image the model '
+              'computes (all filter_* / bandflux_* theorems apply to it), a failing fit fails the function; for a log-linear solution '
+              '(log10 lambda = c0 + c1 i, nx >= 5) the fitted pixel size is exactly c1 at every pixel (func_fit recovers exact data; the 4x4 '
+              'Legendre normal matrix on equally spaced pixels is proved positive definite) and the band flux is sum(resp f)/sum(resp) '
+              'independent of c1; numpy pairwise sums give the same value as left-to-right sums; the argument handling in front (prefix / '
+              'neither argument refused, image wins over trace set, trace set = 10**traceset2xy) is modelled and stated (top_dispatch). '
               'Numeric constants are re-extracted from the source on every run and decided equal to the model tables. '
               'The model is tied to the code by bit-exact I/O correspondence (all input containers and units; np.interp), by the weight '
               'image observed through the real function with unit spectra, and an independent oracle.')
 LEVEL_NOTE = ('Trusted: Lean kernel, axioms propext/Classical.choice/Quot.sound at most, the hand-written model (validated by the '
               'correspondence sample), the AST constant translator, astropy unit factors, numpy/libm kernels. Theorems are exact-arithmetic; '
               'floating-point rounding and "never modify the input" are decided by the harness only. ab_consistent assumes the log10/pow10 '
-              'contract. filter_thru: the cubic Legendre trace-set fit of the pixel differences of log10 lambda is NOT modelled - its '
-              'output is a parameter of the model (any values: the theorems hold for every fitted image of the right shape), supplied '
-              'by the harness from the real TraceSet with the same five lines as filter_thru; the absolute scale of the weights is not '
-              'observable through the function (it cancels), the normalised weights are. numpy pairwise summation is modelled as a '
-              'left-to-right sum (1e-9). Reversal invariance is proved for weights/flux/fitted image reversed together; the real fit '
+              'contract. filter_thru: the cubic Legendre trace-set fit of the pixel differences of log10 lambda IS modelled (Model/WaveFit.lean '
+              'through the C13 model); parameters that remain: log10 (libm) and the linear solver of the 4x4 normal equations (contract: '
+              'solves the system; the log-linear theorems assume it, the structure theorems do not); the Legendre rows are the three-term '
+              'recurrence (scipy on the real side), so the fit is compared at 1e-9, not bit-exactly. The bandflux_* theorems hold for every '
+              'fitted image of the right shape; the absolute scale of the weights is not '
+              'observable through the function (it cancels), the normalised weights are. numpy pairwise summation is modelled (C14 npSum) '
+              'in filterThruG filterMeanPw and compared to <= 2 ulps given the real fitted image; the theorems are stated for the '
+              'left-to-right sums and carried over by pairwise_same_value. nx < 2 and flux/waveimg of different shapes are not modelled '
+              '(Unmodelled); the log-linear closed form needs nx >= 5. Reversal invariance is proved for weights/flux/fitted image reversed together; the real fit '
               'of a reversed curved solution is shifted by one pixel, so the harness asserts it for log-linear solutions only. '
               'Masked-pixel independence needs one unmasked pixel per trace. float32/int flux not covered; sdssflux2ab flags are truth values.')
